@@ -95,8 +95,9 @@ def run(chk):
     for c in sites:
         ok = False
         for t in prog.enclosing(c, (ast.Try,)):
-            if prog.in_body_of(c, t, "body") and (any(M.contains(s, "runner.cleanup()") for s in t.finalbody) or any(M.contains(h, "runner.cleanup()") for h in t.handlers)):
-                ok = True
+            if prog.in_body_of(c, t, "body") and (any(M.contains(s, "runner.cleanup()") for s in t.finalbody)
+                                                    or any(M.contains(h, "runner.cleanup()") and (h.type is None or "BaseException" in PC.handler_types(h)) for h in t.handlers)):
+                ok = True  # a handler for Exception only would miss cancellation / GracefulExit / SystemExit during startup
         if ok:
             chk.ok("C20.entry", c, "run_app: runner.setup() is inside the try whose finally awaits runner.cleanup() (a half-completed startup is undone)")
         else:
